@@ -51,6 +51,14 @@ Theorem C39_outputs_in_base_field :
 Proof. exact outputs_in_base_field. Qed.
 Print Assumptions C39_outputs_in_base_field.
 
+(** values of a lifted type: an int v becomes the constant (v mod q) of the extension field, an element
+    of the embedded base field GF(q), whose output conversion is v mod q (any int, also outside range(q)) *)
+Theorem C39_lifted_int_in_base_field :
+  forall q v, 0 < q ->
+    pdeg (lift_int q v) <= 0 /\ out_conv q (lift_int q v) = Ok (v mod q) /\ 0 <= v mod q < q.
+Proof. exact lift_int_in_base_field. Qed.
+Print Assumptions C39_lifted_int_in_base_field.
+
 (** every secure type's field has more elements than parties when t != 0:
     SecFld (plain or lifted) ... *)
 Theorem C39_all_types_field_gt_m_secfld :
